@@ -182,6 +182,41 @@ int main(int argc, char** argv) {
             for (auto& k : all) do_rem(k);
         }
     }
+    // preamble: paused cursors over structural changes that random profiles did not produce (both found first by the exhaustive model MC_IscanW):
+    //  (a) a next layer with an interior root over two borders; the cursor (4 combinations of direction / early_abort) is paused on the first
+    //      key of the layer, every key of ITS border is removed (the interior root collapses, the other border becomes the layer root), resumed
+    //  (b) three borders in layer 0; an early_abort cursor is paused on the last key of its border, that border AND the next one are emptied
+    if (argi("cursorsweep", 0)) {
+        auto key9 = [](int x) { std::string k(8, 'A'); k.push_back((char)x); return k; };
+        auto emit_mod = [&](const std::string& lk, scan_endpoint le, const std::string& rk, scan_endpoint re, bool rtl, bool ea, const std::function<bool(const std::string&, long)>& stop, const std::vector<std::string>& rems) {
+            std::vector<std::pair<node_version64_body, node_version64*>> nv; auto cb = [&](node_version64* p, node_version64_body b) { nv.emplace_back(b, p); return false; };
+            iscan_context* ctx = nullptr; void* val = nullptr; status rc = iscan_open(st, lk, le, rk, re, rtl, ea, ctx, val, cb);
+            std::string o2 = "{\"op\":\"iscanmod\",\"l\":" + vh::jbytes(lk) + ",\"le\":\"" + vh::epname(le) + "\",\"r\":" + vh::jbytes(rk) + ",\"re\":\"" + vh::epname(re) + "\",\"rtl\":" + vh::jb(rtl) + ",\"ea\":" + vh::jb(ea) + ",\"st\":\"" + vh::stname(rc) + "\",\"steps1\":[";
+            long got = 0; std::string last;
+            while (rc == status::OK) { last = ctx->full_key(); if (got) o2 += ","; o2 += "[" + vh::jbytes(last) + "," + (val ? std::to_string(*(int*)val) : std::string("-1")) + "]"; got++; if (stop(last, got)) break; rc = iscan_next(ctx, val, cb); }
+            o2 += "],\"st1\":\"" + std::string(vh::stname(rc)) + "\",\"mids\":[";
+            if (rc == status::OK) {
+                bool f = true; for (auto& k : rems) { status mrc = remove(tok, st, k); if (mrc == status::OK) present[k] = false; if (!f) o2 += ","; f = false; o2 += "{\"op\":\"rem\",\"k\":" + vh::jbytes(k) + ",\"v\":0,\"st\":\"" + vh::stname(mrc) + "\"}"; }
+                o2 += "],\"steps2\":["; long n2 = 0; rc = iscan_next(ctx, val, cb);
+                while (rc == status::OK) { std::string fk = ctx->full_key(); if (n2) o2 += ","; o2 += "[" + vh::jbytes(fk) + "," + (val ? std::to_string(*(int*)val) : std::string("-1")) + "]"; n2++; if (n2 > 400) break; rc = iscan_next(ctx, val, cb); }
+                o2 += "],\"end\":\"" + std::string(vh::stname(rc)) + "\""; { vh::Canon c2(ti); o2 += ",\"dump\":" + vh::dump_json(c2, valjson); }
+            } else o2 += "],\"steps2\":[],\"end\":\"" + std::string(vh::stname(rc)) + "\"";
+            o2 += "}"; puts(o2.c_str()); if (ctx) iscan_close(ctx); have_read = false; };
+        for (int combo = 0; combo < 4; combo++) { bool rtl = combo & 1, ea = combo & 2;
+            std::vector<std::string> ks = {"0", "z"}; for (int i = 1; i <= 16; i++) ks.push_back(key9(i));
+            for (auto& k : ks) { if (std::find(keys.begin(), keys.end(), k) == keys.end()) keys.push_back(k); do_put(k, false, false, 0); }
+            std::vector<std::string> rems; if (!rtl) for (int i = 1; i <= 8; i++) rems.push_back(key9(i)); else for (int i = 9; i <= 16; i++) rems.push_back(key9(i));
+            emit_mod("", scan_endpoint::INF, "", scan_endpoint::INF, rtl, ea, [](const std::string& k, long) { return k.size() == 9; }, rems);
+            for (auto& k : ks) if (present[k]) { status rc = remove(tok, st, k); std::string o = "{\"op\":\"rem\",\"k\":" + vh::jbytes(k) + ",\"st\":\"" + vh::stname(rc) + "\"}"; puts(o.c_str()); if (rc == status::OK) present[k] = false; }
+        }
+        for (int variant = 0; variant < 2; variant++) {
+            std::vector<std::string> ks; for (int i = 1; i <= 24; i++) ks.push_back(std::string(1, (char)i));
+            for (auto& k : ks) { if (std::find(keys.begin(), keys.end(), k) == keys.end()) keys.push_back(k); do_put(k, false, false, 0); }
+            std::vector<std::string> rems; for (int i = 1; i <= (variant == 0 ? 16 : 8); i++) rems.push_back(std::string(1, (char)i));
+            emit_mod("", scan_endpoint::INF, "", scan_endpoint::INF, false, true, [](const std::string&, long n) { return n == 8; }, rems);
+            for (auto& k : ks) if (present[k]) { status rc = remove(tok, st, k); std::string o = "{\"op\":\"rem\",\"k\":" + vh::jbytes(k) + ",\"st\":\"" + vh::stname(rc) + "\"}"; puts(o.c_str()); if (rc == status::OK) present[k] = false; }
+        }
+    }
     long psweep = argi("psweep", 0), pdrain = argi("pdrain", 0); std::vector<std::string> sweep;   // sorted runs of removes that empty whole borders
     for (long opno = 1; opno <= nops; opno++) {
         long x = rng() % 100; long acc = 0;
